@@ -195,6 +195,11 @@ var reservedSparseNs = func() [][]byte {
 }()
 
 func genC10(c *Ctx) {
+	defer func() {
+		for _, h := range boundaryExportHistories(c.rng) {
+			runSplitterHistory(c, pick(c.rng, [][]byte{txNs, pfbNs}), h, "CompactShareSplitter (history)")
+		}
+	}()
 	c.rule = "every share emitted for blobs (hot lengths x versions), compact sequences (offset-covering tx lists) and padding, byte-compared with an independent encoder (Go) and with the Coq closed-form spec; accessors on emitted shares and on crafted 512-byte strings (all 256 info bytes x reserved-byte values x namespaces); non-trivial = distinct emitted sequence of more than one share, or distinct crafted share"
 	r := c.rng
 	nss := blobNamespaces(r, 4)
@@ -603,6 +608,11 @@ func itemsShape(items []string) string {
 // ---- C09 ----
 
 func genC09(c *Ctx) {
+	defer func() {
+		for _, h := range boundaryExportHistories(c.rng) {
+			runSplitterHistory(c, pick(c.rng, [][]byte{txNs, pfbNs}), h, "CompactShareSplitter (history)")
+		}
+	}()
 	c.rule = "tx lists (1-12 txs; lengths from exact-fill, prefix-straddle, varint-width and random families) for both compact namespaces; written, counted, exported, parsed; non-trivial = distinct length list spanning more than one share"
 	r := c.rng
 	nRandom := 400 * c.scale
